@@ -133,6 +133,9 @@ def angle(rng):
     return float(rng.choice([0.0, math.pi, 2 * math.pi, -math.pi / 2, math.pi / 4, rng.uniform(-7, 7), rng.uniform(-7, 7)]))
 
 
+FORMS = [0]
+
+
 def add_random_gate(qc, rng, n, log, allow3=True, max_multi=None, counter=None):
     kinds = ["one", "one", "rot"]
     if n >= 2 and (max_multi is None or counter[0] < max_multi):
@@ -143,7 +146,22 @@ def add_random_gate(qc, rng, n, log, allow3=True, max_multi=None, counter=None):
     if kind == "one":
         g = str(rng.choice(ONE)); q = int(rng.integers(n)); getattr(qc, g)(q); log.append([g, q])
     elif kind == "rot":
-        g = str(rng.choice(ROT)); q = int(rng.integers(n)); th = angle(rng); getattr(qc, g)(th, q); log.append([g, th, q])
+        g = str(rng.choice(ROT)); q = int(rng.integers(n)); th = angle(rng)
+        r_form = rng.random()
+        if r_form < 0.06:
+            th = int(round(th))                                  # an integer angle
+        if r_form < 0.12:
+            getattr(qc, g)(np.float64(th) if r_form >= 0.06 else th, q)
+        elif r_form < 0.2:
+            # a symbolic qiskit parameter, bound to the value before the circuit is handed over
+            from qiskit.circuit import Parameter as QParameter
+            sym = QParameter("a%d" % len(log))
+            getattr(qc, g)(sym, q)
+            qc.assign_parameters({sym: th}, inplace=True)
+            FORMS[0] += 1
+        else:
+            getattr(qc, g)(th, q)
+        log.append([g, th, q])
         if abs(th / (math.pi / 2) - round(th / (math.pi / 2))) < 1e-3 and th != 0 and abs(th - round(th / (math.pi / 2)) * math.pi / 2) > 0:
             ROT_NEAR[0] += 1
     elif kind == "two":
@@ -330,6 +348,9 @@ def run(ctx):
             ctx.bucket("swap_gate")
         qc, presented = presentation(qc, rng)
         ctx.bucket("qiskit_circuit_presented_as:" + presented.split(" ")[0])
+        if FORMS[0]:
+            ctx.bucket("rotation_angle_bound_from_symbolic_parameter", FORMS[0])
+            FORMS[0] = 0
         if ROT_NEAR[0]:
             ctx.bucket("rotation_angle_near_special_value", ROT_NEAR[0])
             ROT_NEAR[0] = 0
